@@ -632,6 +632,9 @@ func extBufferBytes(vc *VC, fr *Frame, st *State, args []Val, pos token.Pos) []O
 	isnil := Eq(b.Len, vc.idx(0))
 	if !b.Fresh {
 		isnil = And(Eq(b.Len, vc.idx(0)), vc.freshTerm("bufnil", SBool))
+		if b.FreshT != nil {
+			isnil = Or(*b.FreshT, isnil)
+		}
 	}
 	return one(st, SliceVal{Base: PtrVal{Cell: c}, Off: b.Base, Len: b.Len, Cap: b.Len, IsNil: isnil})
 }
